@@ -295,6 +295,14 @@ func run(r *core.Run) int {
 			cases = append(cases, mk([]sims.CertPlan{mkPlan(o, c)}, "validate", "http", "", false))
 		}
 	}
+	if !r.Quick() {
+		// the 32 MiB cap of the CRL fetcher, streamed (a handful: each costs ~64 MiB)
+		for _, o := range [][]slot{nil, {{"http", "err"}}, {{"http", "unknown-status"}}} {
+			for _, c := range [][]slot{{{"http", "oversize"}}, {{"http", "clean"}, {"http", "oversize"}}} {
+				cases = append(cases, mk([]sims.CertPlan{mkPlan(o, c)}, "validate", "http", "", false))
+			}
+		}
+	}
 	r.Set("single_certificate_cases", len(cases))
 	// (2) entry points, caches, cancellation over sampled assignments
 	rng = r.Rand("sampled")
